@@ -2,54 +2,158 @@
 
 package oidc
 
-import "time"
+import (
+	"reflect"
+	"strings"
+	"sync"
+	"time"
+	"unsafe"
+)
+
+// The probes below read the stores' private state WITHOUT naming any private type, field or method at compile time: a
+// refactoring of the stores must not stop the harness from building. Whatever the probe does not recognise is reported
+// as unknown (Known / MembersKnown / TimesKnown false) and the trace specifications then judge by results alone.
 
 // VerifProbe is the projected content of one session of a store, read without side effects.
 type VerifProbe struct {
-	Known    bool // the store type is understood by the probe
-	Ex       bool
-	Auth     bool
-	Tok      bool
-	Added    time.Time
-	Accessed time.Time
-	AbsTO    time.Duration
-	IdleTO   time.Duration
+	Known        bool // the store is an in-memory store the probe understands (a map of sessions by id)
+	Ex           bool
+	MembersKnown bool // Auth and Tok are meaningful
+	Auth         bool
+	Tok          bool
+	TimesKnown   bool // Added and Accessed are meaningful
+	Added        time.Time
+	Accessed     time.Time
+	AbsTO        time.Duration
+	IdleTO       time.Duration
+}
+
+// readable returns a value through which an unexported field can be read (and its address taken).
+func readable(v reflect.Value) reflect.Value {
+	if !v.CanAddr() {
+		return v
+	}
+	return reflect.NewAt(v.Type(), unsafe.Pointer(v.UnsafeAddr())).Elem()
+}
+
+func structOf(s any) (reflect.Value, bool) {
+	v := reflect.ValueOf(s)
+	for v.IsValid() && (v.Kind() == reflect.Ptr || v.Kind() == reflect.Interface) {
+		if v.IsNil() {
+			return reflect.Value{}, false
+		}
+		v = v.Elem()
+	}
+	return v, v.IsValid() && v.Kind() == reflect.Struct
+}
+
+// lockOf finds a mutex among the fields of the store and returns functions to hold it while reading.
+func lockOf(st reflect.Value) (lock, unlock func()) {
+	for i := 0; i < st.NumField(); i++ {
+		f := readable(st.Field(i))
+		if !f.CanAddr() {
+			continue
+		}
+		switch m := f.Addr().Interface().(type) {
+		case *sync.Mutex:
+			return m.Lock, m.Unlock
+		case *sync.RWMutex:
+			return m.RLock, m.RUnlock
+		}
+	}
+	return func() {}, func() {}
+}
+
+func sessionsOf(st reflect.Value) (reflect.Value, bool) {
+	for i := 0; i < st.NumField(); i++ {
+		f := st.Field(i)
+		if f.Kind() == reflect.Map && f.Type().Key().Kind() == reflect.String && strings.Contains(strings.ToLower(st.Type().Field(i).Name), "session") {
+			return readable(f), true
+		}
+	}
+	return reflect.Value{}, false
+}
+
+func durationField(st reflect.Value, part string) time.Duration {
+	for i := 0; i < st.NumField(); i++ {
+		if strings.Contains(strings.ToLower(st.Type().Field(i).Name), part) && st.Field(i).Type() == reflect.TypeOf(time.Duration(0)) {
+			return time.Duration(st.Field(i).Int())
+		}
+	}
+	return 0
+}
+
+func isRedisStore(st reflect.Value) bool {
+	return strings.Contains(strings.ToLower(st.Type().Name()), "redis")
 }
 
 // VerifProbeMemory reads a session of the in-memory store without touching it.
 func VerifProbeMemory(s SessionStore, sid string) VerifProbe {
-	m, ok := s.(*memoryStore)
+	st, ok := structOf(s)
+	if !ok || isRedisStore(st) {
+		return VerifProbe{}
+	}
+	sessions, ok := sessionsOf(st)
 	if !ok {
 		return VerifProbe{}
 	}
-	m.mu.Lock()
-	defer m.mu.Unlock()
-	p := VerifProbe{Known: true, AbsTO: m.absoluteSessionTimeout, IdleTO: m.idleSessionTimeout}
-	if se := m.sessions[sid]; se != nil {
-		p.Ex = true
-		p.Auth = se.authorizationState != nil
-		p.Tok = se.tokenResponse != nil
-		p.Added, p.Accessed = se.added, se.accessed
+	lock, unlock := lockOf(st)
+	lock()
+	defer unlock()
+	p := VerifProbe{Known: true, AbsTO: durationField(st, "absolute"), IdleTO: durationField(st, "idle")}
+	e := sessions.MapIndex(reflect.ValueOf(sid))
+	if !e.IsValid() {
+		return p
 	}
+	for e.Kind() == reflect.Ptr || e.Kind() == reflect.Interface {
+		if e.IsNil() {
+			return p
+		}
+		e = e.Elem()
+	}
+	p.Ex = true
+	if e.Kind() != reflect.Struct {
+		return p
+	}
+	members, times := 0, 0
+	for i := 0; i < e.NumField(); i++ {
+		name, f := strings.ToLower(e.Type().Field(i).Name), e.Field(i)
+		switch {
+		case f.Kind() == reflect.Ptr && strings.Contains(name, "auth"):
+			p.Auth, members = !f.IsNil(), members+1
+		case f.Kind() == reflect.Ptr && strings.Contains(name, "token"):
+			p.Tok, members = !f.IsNil(), members+1
+		case f.Type() == reflect.TypeOf(time.Time{}) && strings.Contains(name, "add"):
+			p.Added, times = readable(f).Interface().(time.Time), times+1
+		case f.Type() == reflect.TypeOf(time.Time{}) && strings.Contains(name, "access"):
+			p.Accessed, times = readable(f).Interface().(time.Time), times+1
+		}
+	}
+	p.MembersKnown, p.TimesKnown = members == 2, times == 2
 	return p
 }
 
 // VerifMemoryLen returns the number of sessions held by the in-memory store (-1 if not a memory store).
 func VerifMemoryLen(s SessionStore) int {
-	m, ok := s.(*memoryStore)
+	st, ok := structOf(s)
+	if !ok || isRedisStore(st) {
+		return -1
+	}
+	sessions, ok := sessionsOf(st)
 	if !ok {
 		return -1
 	}
-	m.mu.Lock()
-	defer m.mu.Unlock()
-	return len(m.sessions)
+	lock, unlock := lockOf(st)
+	lock()
+	defer unlock()
+	return sessions.Len()
 }
 
 // VerifIsRedis reports whether the store is the Redis implementation, with its timeouts.
 func VerifIsRedis(s SessionStore) (bool, time.Duration, time.Duration) {
-	r, ok := s.(*redisStore)
-	if !ok {
+	st, ok := structOf(s)
+	if !ok || !isRedisStore(st) {
 		return false, 0, 0
 	}
-	return true, r.absoluteSessionTimeout, r.idleSessionTimeout
+	return true, durationField(st, "absolute"), durationField(st, "idle")
 }
